@@ -53,7 +53,8 @@ def pieces(sid, k, n, first_table=None):
 
 
 TEXTS = ["note{c} alpha", "Use the customer key{c}, not the name", "GO ahead note{c}; delete later", "insert note{c} into x values (1)", "create table zz{c} (y int); drop", "note{c}, (paren) and; semi", "ALTER TABLE qq{c} ADD xx{c}", "primary key{c} = 5",
-         "1) surrogate key{c}", "see note{c} (a", "key{c} :) or (("]
+         "1) surrogate key{c}", "see note{c} (a", "key{c} :) or ((",
+         "valid 2019\u20132021 note{c}", "legacy{c} \u2014 remove", "gr\u00f6\u00dfe note{c} \u00e9t\u00e9"]
 
 
 def salt(beh):
